@@ -5,6 +5,7 @@ import Req.H3.Varint
 import Req.H3.Frame
 import Req.H3.Fields
 import Req.H2.FieldsX
+import Req.H2.WriteBlock
 import Req.Driver.WireUtil
 /-! Driver lanes of C05 (HTTP/2 framer, QUIC varints, HTTP/3 frames/SETTINGS/field sections). -/
 namespace Req.Driver.L.C05
@@ -430,9 +431,27 @@ def laneReqSec : List String → String
   | _ => "bad-op"
 end emit
 
+/-! ### `ClientConn.writeHeaders`: a header block as HEADERS + CONTINUATION frames -/
+section wblock
+open Req.H2.Frame
+
+/-- `c05wblock <streamID> <endStream> <dep> <exclusive> <weight> <maxFrameSize> <block>` → the bytes
+written (`panic` = Go's slice-bounds panic). -/
+def laneWBlock : List String → String
+  | [sid, es, dep, ex, w, mf, blk] =>
+    match sid.toNat?, bool? es, dep.toNat?, bool? ex, w.toNat?, mf.toNat?, decodeHex blk with
+    | some sid, some es, some dep, some ex, some w, some mf, some blk =>
+      match writeBlock sid es ⟨dep, ex, w⟩ mf blk with
+      | .ok b => encodeHex b
+      | .error .sliceBounds => "panic"
+    | _, _, _, _, _, _, _ => "bad-op"
+  | _ => "bad-op"
+end wblock
+
 def lanes : List (String × (List String → String)) := [
   ("c05emit", laneEmit),
   ("c05reqsec", laneReqSec),
+  ("c05wblock", laneWBlock),
   ("c05vappend", laneVAppend),
   ("c05vlen", laneVLen),
   ("c05vappendlen", laneVAppendLen),
